@@ -149,7 +149,7 @@ def generate(spec: str, cfg: str, prefix: str, dest: str, **kw) -> dict:
 
 
 def validate_traces(spec: str, cfg: str, trace_file: str, *, timeout: int = 3600,
-                    heap: str = "4g") -> List[dict]:
+                    heap: str = "2g") -> List[dict]:
     """Runs a trace spec over one ndjson file; returns the verdict records.
     Raises MachineryError unless exactly one verdict per trace came back."""
     n_traces = sum(1 for line in open(trace_file) if line.strip())
